@@ -676,6 +676,10 @@ func palindromeState(f *ssa.Function) (int, string) {
 				}
 				return broken, "a path answers " + a.T.Name + " under " + short(a.Cond.String()) + " without comparing the sequence with its reverse complement"
 			}
+		case (a.T.isCall("strings.EqualFold") || a.T.isCall("bytes.EqualFold")) && len(a.T.Args) == 2 &&
+			((a.T.Args[0].isParam(0) && a.T.Args[1].String() == "call[poly/transform.ReverseComplement](param[0])") || (a.T.Args[1].isParam(0) && a.T.Args[0].String() == "call[poly/transform.ReverseComplement](param[0])")):
+			// the very comparison the property names, made with a weaker equality
+			return broken, "IsPalindromic compares the sequence with its reverse complement case-insensitively (EqualFold): \"aT\" is reported palindromic although its reverse complement is \"At\"; reverse complement preserves case, so the property's equality is exact"
 		default:
 			st = unknown
 			why = "IsPalindromic is " + short(a.T.String())
